@@ -619,3 +619,30 @@ def negclass_exhausts(ast, letters):
             walk(n["body"])
     walk(ast["body"])
     return bool(found)
+
+
+def member_safe(ast, max_reps=3):
+    """Backtracking-safe shape for regex *members* of schemas: d42's own validator runs re.search on
+    them (no guard possible there), so quantifier bodies must be plain atoms (no group, hence no
+    alternation or nested quantifier under a quantifier) and there are at most `max_reps` quantifiers."""
+    n = [0]
+    ok = [True]
+
+    def walk(x):
+        k = x["k"]
+        if k == "rep":
+            n[0] += 1
+            if x["body"]["k"] not in ("lit", "esc", "any", "cat", "class", "unsup"):
+                ok[0] = False
+            if x["max"] is None and x["min"] > 64:
+                ok[0] = False
+        elif k == "seq":
+            for i in x["items"]:
+                walk(i)
+        elif k == "alt":
+            for b in x["branches"]:
+                walk(b)
+        elif k == "group":
+            walk(x["body"])
+    walk(ast["body"])
+    return ok[0] and n[0] <= max_reps
